@@ -43,7 +43,7 @@ def spinner(times):
     return s
 
 
-def program(kind, period, durs, start, pre, second=None, until=None, launch=None, closed=None, whole=False, till=None):
+def program(kind, period, durs, start, pre, second=None, until=None, launch=None, closed=None, whole=False, till=None, until_flag=None):
     """launch: options of scope.do for the ticker ({'at': t} / {'after': d}); closed: (kind, period) of a volatile ticker in the same
     scope that is closed forcefully while it pauses - the root ticks on afterwards; whole: only whole-numbered dates are used
     (for clocks so large that halves cannot be represented); till: run(till=...), the ticker is cut off there"""
@@ -51,7 +51,13 @@ def program(kind, period, durs, start, pre, second=None, until=None, launch=None
     script = [['TRY', [op]], ['PROBE', 'now']]
     if until is not None:
         script = [['UNTIL', 'u', ['DELAY', until], [['TRY', [op]]]], ['PROBE', 'now']]
+    if until_flag is not None:
+        script = [['UNTIL', 'u', ['F', 'A'], [['TRY', [op]]]], ['PROBE', 'now']]
     kids = [['DO', 'tk', script] + ([launch] if launch else [])]
+    if until_flag is not None:
+        # the helper's wake-up for that date is queued ahead of everything the ticker schedules later: it raises the flag
+        # first, and the interrupt of the until block is queued BEHIND the wake-up with which the ticker's body ends
+        kids.insert(0, ['DO', 'h', [['D', until_flag], ['SET', 'A', True]]])
     if second:
         k2, p2, d2 = second
         kids.append(['DO', 'tk2', [['TRY', [[k2, p2, len(d2), [DUR[d] for d in d2]]]], ['PROBE', 'now']]])
@@ -64,7 +70,7 @@ def program(kind, period, durs, start, pre, second=None, until=None, launch=None
     horizon = [x * (1 if whole else 0.5) for x in range(0, 15 if whole else 30)]
     kids.append(['DO', 'spin', spinner(horizon), {'volatile': True}])
     prog = {'start': start, '_nops': 200, '_meta': {'kind': kind, 'period': period, 'durs': list(durs), 'pre': pre, 'until': until,
-                                                     'launch': launch, 'till': till},
+                                                     'launch': launch, 'till': till, 'until_flag': until_flag}, 'objs': {'A': 'Flag'},
             'roots': [['root', [['SCOPE', 's', kids]] + after]]}
     if till is not None:
         prog['till'] = till
@@ -91,6 +97,9 @@ def cases(tier):
                     out.append(program(kind, period, seq, 0.5, None))
                     out.append(program(kind, period, seq, 0, 1))
                     out.append(program(kind, period, seq, 0, None, until=3))
+                    if period:
+                        for tf in (2, 3, 4, 5):
+                            out.append(program(kind, period, seq, 0, None, until_flag=tf))
                     for k2 in ('INTERVAL', 'DELAYLOOP'):
                         out.append(program(kind, period, seq, 0, None, second=(k2, period, seq)))
                         out.append(program(kind, period, seq, 0, None, second=(k2, 1, ('n', 'n'))))
@@ -222,6 +231,10 @@ def judge(ctx, program, hit=()):
         if program['_meta']['until'] is not None and act == 'tk':
             ent = next(r for r in log if r[0] == 'scope-enter' and r[1] == act)
             dl = min(dl, ent[3] + program['_meta']['until'])
+        flag_tie = False
+        if program['_meta'].get('until_flag') is not None and act == 'tk':
+            dl = min(dl, start + program['_meta']['until_flag'])
+            flag_tie = True
         ticks, outcome = expected(meta, log[begin][3])
         got = [(i, r[3], r[4]) for i, r in enumerate(log) if r[0] == 'tick' and r[1] == act and r[2] == pc]
         fin = next(((r[0], r[3], r[4]) for r in log[begin:] if r[0] in ('end', 'exc') and r[1] == act and r[2] == pc), None)
@@ -236,7 +249,9 @@ def judge(ctx, program, hit=()):
             if v != t:
                 msgs.append('%s: tick at %r yielded %r instead of the current time' % (act, t, v))
         kind_, t_out = outcome
-        if t_out < dl:
+        # (an overrun that is complete in the time step in which the flag of the enclosing until block is raised: the body's
+        # wake-up is queued ahead of the block's interrupt, so the overrun is noticed first)
+        if t_out < dl or (flag_tie and kind_ == 'exceeded' and t_out == dl and ticks and ticks[-1] < dl):
             if kind_ == 'end' and (fin is None or fin[0] != 'end' or fin[1] != t_out):
                 msgs.append('%s: loop should end normally at %r, got %r' % (act, t_out, fin))
             if kind_ == 'exceeded' and (fin is None or fin[0] != 'exc' or not isinstance(fin[2], IntervalExceeded) or fin[1] != t_out):
